@@ -339,11 +339,20 @@ def outputs(stmts, var_spec=None):
             isinstance(first.targets[0], ast.Name)):
         raise Unsupported('the block does not start with s = f"{x:SPEC}"')
     spec_node = first.value.values[0].format_spec
-    if not (isinstance(spec_node, ast.JoinedStr) and
-            len(spec_node.values) == 1 and
-            isinstance(spec_node.values[0], ast.Constant)):
+    # the spec is constant text, possibly with constant fields nested in it
+    # (`{x:.{11}G}` after a helper with a `digits` parameter was inlined)
+    if not isinstance(spec_node, ast.JoinedStr):
         raise Unsupported('dynamic format spec')
-    spec = spec_node.values[0].value
+    spec = ''
+    for v in spec_node.values:
+        if isinstance(v, ast.Constant):
+            spec += str(v.value)
+        elif isinstance(v, ast.FormattedValue) and \
+                isinstance(v.value, ast.Constant) and \
+                v.format_spec is None and v.conversion == -1:
+            spec += str(v.value.value)
+        else:
+            raise Unsupported('dynamic format spec')
     res = []
     for t in format_templates(spec):
         it = Interp()
